@@ -4,16 +4,20 @@ import subprocess
 
 HERE = os.path.dirname(os.path.abspath(__file__))
 LEAN_DIR = os.path.normpath(os.path.join(HERE, "..", "lean"))
-DRIVER = os.path.join(LEAN_DIR, ".lake", "build", "bin", "rpycdrv")
+BIN_DIR = os.path.join(LEAN_DIR, ".lake", "build", "bin")
 
 
 class DriverError(Exception):
     pass
 
 
-def run_driver(lines, timeout=600):
+def run_driver(lines, exe="drv_brine", timeout=600):
+    """lines: op lines; exe: the layer's driver executable name (lean/lakefile.toml)"""
+    DRIVER = os.path.join(BIN_DIR, exe)
     if not os.path.exists(DRIVER):
         raise DriverError("driver not built: %s" % DRIVER)
+    if not lines:
+        return []
     data = ("\n".join(lines) + "\n").encode()
     p = subprocess.run([DRIVER], input=data, stdout=subprocess.PIPE, stderr=subprocess.PIPE, timeout=timeout)
     if p.returncode != 0:
